@@ -433,6 +433,7 @@ def _search_case(rng):
 
 def search(ctx):
     rng = ctx.rng
+    check_failures(ctx)
     for _ in range(ctx.n(1500, 20000) * (3 if ctx.escalated else 1)):
         case = _search_case(rng)
         r = check_input(case)
@@ -443,7 +444,66 @@ def search(ctx):
             ctx.fail(r[0], r[1], {"kind": "input", "case": {**case, "atoms": [list(a) for a in case["atoms"]]}})
 
 
+class _Custom(Exception):
+    pass
+
+
+def _failure_cases():
+    """Rendering failures of many exception classes: each must surface as WriteInputError."""
+    def raiser(exc):
+        def atom_line(data, iatom):
+            raise exc
+        return atom_line
+
+    cases = []
+    for prog in PROGRAMS:
+        for name, exc in (("ZeroDivisionError", ZeroDivisionError("x")), ("RuntimeError", RuntimeError("x")),
+                          ("AttributeError", AttributeError("x")), ("OSError", OSError("x")),
+                          ("AssertionError", AssertionError("x")), ("Custom", _Custom("x")),
+                          ("KeyError", KeyError("x")), ("IndexError", IndexError("x")),
+                          ("TypeError", TypeError("x")), ("ValueError", ValueError("x")),
+                          ("ArithmeticError", FloatingPointError("x")), ("UnicodeError", UnicodeDecodeError("a", b"", 0, 1, "x")),
+                          ("StopIteration", StopIteration())):
+            cases.append((prog, f"atom_line raises {name}", {"atom_line": raiser(exc)}, None))
+        for tmpl, why in (("{cellvecs.shape}", "AttributeError on a None field"), ("{mo.norba}", "AttributeError"),
+                          ("{atnums[99]}", "IndexError"), ("{nosuchfield}", "KeyError"), ("{0}", "positional field"),
+                          ("{title!x}", "bad conversion"), ("{charge:q}", "bad format spec"), ("{", "unbalanced brace")):
+            cases.append((prog, f"template {tmpl!r}: {why}", {}, tmpl))
+        cases.append((prog, "infinite charge (OverflowError)", {"_charge": float("inf")}, None))
+        cases.append((prog, "nan spinpol", {"_spinpol": float("nan")}, None))
+    return cases
+
+
+def check_failures(ctx):
+    from iodata import IOData
+    from iodata.api import write_input
+    from iodata.utils import WriteInputError
+
+    for prog, what, kw, tmpl in _failure_cases():
+        kw = dict(kw)
+        data = IOData(atnums=np.array([8, 1, 1]), atcoords=np.array([[0, 0, 0.0], [0, 1, 1.0], [0, -1, 1.0]]),
+                      charge=kw.pop("_charge", 0.0), spinpol=kw.pop("_spinpol", 0.0))
+        with tempfile.TemporaryDirectory(prefix="c19-") as tmp:
+            path = os.path.join(tmp, "input.in")
+            try:
+                write_input(data, path, prog, template=tmpl, **kw)
+                st = "ok"
+            except WriteInputError:
+                st = "WriteInputError"
+            except Exception as exc:
+                st = type(exc).__name__
+        ctx.count("search-failure-injection", [prog, what], st)
+        if st not in ("WriteInputError",) and not (st == "ok" and "nan" in what):
+            ctx.fail(f"input-failure-escapes:{st}", f"write_input({prog}): {what} ended with {st}, expected WriteInputError",
+                     {"kind": "failure", "prog": prog, "what": what})
+
+
 def replay(ctx, obj):
+    if obj["input"].get("kind") == "failure":
+        n0 = len(ctx.failures)
+        check_failures(ctx)
+        return any(f["input"].get("what") == obj["input"]["what"] and f["input"].get("prog") == obj["input"]["prog"]
+                   for f in ctx.failures[n0:])
     case = obj["input"]["case"]
     case["atoms"] = [tuple(a) for a in case["atoms"]]
     return check_input(case) is not None
